@@ -590,7 +590,7 @@ func (c *Ctx) ruleGraphsPersist() {
 
 func runC03(c *Ctx) {
 	p, r := c.P, c.R
-	r.Explanation = "Decides the protocol obligations whose conjunction is the termination / no-leak argument for Send, each a necessary condition: every feasible send on a chan Status is an arm of a blocking select that also receives from the function's ctx.Done(); the collector's only blocking operation is one select over {ctx.Done(), status channel}, it leaves its loop on either ctx.Done() or channel closed, and nothing blocks between that and its return; the traversal's first effect is defer wg.Done(), every start of it is immediately preceded by wg.Add(1) on the same wait group, the channel is closed at exactly one site, after wg.Wait(), after the range; the inventory of blocking instructions reachable from Send inside package eventlogger equals these whitelisted protocol sites; channel and wait group are created per call and stay private to it. Latency bounds and scheduler fairness are not decided."
+	r.Explanation = "Decides the protocol obligations whose conjunction is the termination / no-leak argument for Send, each a necessary condition: every feasible send on a chan Status is an arm of a blocking select that also receives from the function's ctx.Done(); the collector's only blocking operation is one select over {ctx.Done(), status channel}, it leaves its loop on either ctx.Done() or channel closed, and nothing blocks between that and its return; the traversal's first effect is defer wg.Done(), every start of it is immediately preceded by wg.Add(1) on the same wait group, the channel is closed at exactly one site, after wg.Wait(), after the range; the inventory of blocking instructions reachable from Send inside package eventlogger equals these whitelisted protocol sites; channel and wait group are created per call and stay private to it. Latency bounds and scheduler fairness are not decided. C03.private make-size: no allocation of the package is sized by a value that can be negative."
 	r.NotDecided = []string{"latency after cancellation as a number", "scheduler fairness", "panics inside user nodes"}
 	a := c.protoAnchors("C03.anchor")
 	if a == nil {
@@ -602,6 +602,7 @@ func runC03(c *Ctx) {
 	c.ruleInventory(a)
 	c.ruleSendHoldsNothing("C03.inventory")
 	c.rulePrivate(a)
+	c.ruleMakeSizes("C03.private")
 	// Send's first blocking step is Broker.lock.RLock(): it is acquirable again after every other
 	// Broker call only if each acquisition in the package is released on every path — a refused
 	// RemoveNode that returns with the write lock held makes every later Send block for ever,
@@ -699,9 +700,13 @@ func isBlocking(in ssa.Instruction) (string, bool) {
 }
 
 // ruleCollector: C03.collector
-func (c *Ctx) ruleCollector(a *protoAnchors) {
+func (c *Ctx) ruleCollector(a *protoAnchors) { c.ruleCollectorAs("C03.collector", a) }
+
+// ruleCollectorAs: the same obligations under another property's name (C01.drain: a collector
+// that leaves while the launcher still hands in statuses blocks the launcher inside its range —
+// the pipelines behind the blocked one are never started although the context is live).
+func (c *Ctx) ruleCollectorAs(rule string, a *protoAnchors) {
 	p, r := c.P, c.R
-	const rule = "C03.collector"
 	C := a.collector
 	tb := p.NewTerms(nil)
 	sel := a.colSelect
@@ -807,9 +812,13 @@ func (c *Ctx) ruleCollector(a *protoAnchors) {
 }
 
 // ruleWG: C03.wg
-func (c *Ctx) ruleWG(a *protoAnchors) {
+func (c *Ctx) ruleWG(a *protoAnchors) { c.ruleWGAs("C03.wg", a) }
+
+// ruleWGAs: the wait-group protocol under another property's name (C12.wg: an Add that is
+// not matched by a Done on some path leaves Wait blocked, the channel is never closed and
+// Send never returns under a context that is never cancelled, although every node returned).
+func (c *Ctx) ruleWGAs(rule string, a *protoAnchors) {
 	p, r := c.P, c.R
-	const rule = "C03.wg"
 	T := a.traverse
 	tb := p.NewTerms(nil)
 	// defer wg.Done() dominating every other call
